@@ -92,6 +92,8 @@ def gen_case(rng, tier):
         c["flags"] = {"use_mixing": rng.random() < 0.5, "lnl_sym": rng.random() < 0.5,
                       "marginalize_unknown": rng.random() < 0.5, "use_midext_evo": rng.random() < 0.6,
                       "use_central": rng.random() < 0.08}
+        if c["flags"]["use_central"]:
+            c["flags"]["use_midext_evo"] = False      # the constructor rejects central + evolution
         c["boundary"] = rng.choice([None, None, None, None, "midext0", "midext1"])
     return c
 
